@@ -12,7 +12,7 @@ PID = 'C01'
 CPP = 'c01.cpp'
 LIBS = ('SUNalg.cpp',)
 TOL = Fraction(1, 10 ** 13)
-FUNCS = ['SU_vector::GetGSLMatrix (SUToMatrixN kernels)', 'SU_vector::SU_vector(const gsl_matrix_complex*) (MatrixToSUN kernels)',
+FUNCS = ['SU_vector::GetGSLMatrix (SUToMatrixN kernels)', 'SU_vector::SU_vector(const gsl_matrix_complex*) (MatrixToSUN kernels; compact matrices and strided views)',
          'SU_vector::GetComponents', 'SU_vector::SU_vector(const std::vector<double>&)', 'operator+ / - / unary - / *(double) / double*',
          'operator+= -= *= /=', 'SU_vector::Transpose', 'SU_vector::Real', 'SU_vector::Imag', 'SU_vector::operator==',
          'AdditionProxy/SubtractionProxy/NegationProxy/MultiplicationProxy::compute', 'SU_vector::assignProxy', 'SU_vector::operator=(const SU_vector&)']
@@ -151,6 +151,18 @@ def work(item):
                 polys.append(M2[i][j][0] - H[i][j][0])
                 polys.append(M2[i][j][1] - H[i][j][1])
         dec.decide('S2M(M2S(H)) = H for Hermitian H, d=%d' % d, polys, 'roundtrip-matrix:d=%d' % d, dict(kind='rt-matrix', d=d), sens_poly=M2[0][0][0] + H[0][0][0])
+        # the same matrix as a strided view (row stride != d): identical components, independent of the surrounding entries
+        zero0 = Residual(solver, ctx, box=1, tol=Fraction(0))
+        for (D_, off) in (((d + 1, 0), (d + 2, 1)) if tier == 'quick' else ((d + 1, 0), (d + 1, 1), (d + 2, 1), (d + 3, 3))):
+            jk = sym_vec('junk', 2 * D_ * D_)
+            pv = h.run('h_m2s_view', [I(d), I(D_), I(off), Buf('junk', jk), Buf('re', rs), Buf('im', ms), Buf('o', n=n)])
+            exstats.append(h.last_ex.stats)
+            if not (len(pv) == 1 and pv[0].status == 'ok' and pv[0].ret == 0):
+                out['broken'].append('h_m2s_view d=%d: %r' % (d, pv))
+                continue
+            ov = pv[0].out('o')
+            dec.decide('SU_vector(matrix view of a %dx%d matrix at offset %d, row stride %d) = SU_vector(compact copy), d=%d' % (D_, D_, off, D_, d),
+                       [ctx.poly(ov[k]) - m2s[k] for k in range(n)], 'm2s-view:d=%d' % d, dict(kind='m2s-view', d=d, D=D_, off=off), res=zero0)
     # ---- 4. component list round trip is exact
     ps = h.run('h_components', [I(d), Buf('a', xs), Buf('o', n=n)])
     exstats.append(h.last_ex.stats)
@@ -230,8 +242,13 @@ def work(item):
     for d2 in range(2, 7):
         n2 = d2 * d2
         bb = sym_vec('b', n2)
-        ps = h.run('h_eq', [I(d), I(d2), Buf('a', a), Buf('b', bb)])
-        exstats.append(h.last_ex.stats)
+        ps = []
+        for mode in range(4):
+            pm = h.run('h_eq', [I(d), I(d2), Buf('a', a), Buf('b', bb), I(mode)])
+            exstats.append(h.last_ex.stats)
+            for p in pm:
+                p.mode = mode
+            ps += pm
         okall = True
         for p in ps:
             if p.status != 'ok' or p.ret not in (10, 11):
@@ -240,7 +257,7 @@ def work(item):
                 continue
             if d != d2:
                 if p.ret != 11:
-                    dec.candidate('eq:d=%d,%d' % (d, d2), 'vectors of different dimension compare equal', kind='eq', d=d, d2=d2)
+                    dec.candidate('eq:d=%d,%d' % (d, d2), 'vectors of different dimension compare equal', kind='eq', d=d, d2=d2, mode=p.mode)
                     okall = False
                 continue
             spec = True
@@ -249,13 +266,13 @@ def work(item):
             want = spec if p.ret == 11 else T.bnot(spec)   # violated iff path says "different" but all equal / "equal" but some differ
             r = solver.check(p.pc + [want], label='operator== path (ret=%s) consistent with component-wise equality d=%d' % ('equal' if p.ret == 10 else 'different', d))
             if r == 'sat':
-                dec.candidate('eq:d=%d,%d' % (d, d2), 'operator== disagrees with component-wise equality', kind='eq', d=d, d2=d2)
+                dec.candidate('eq:d=%d,%d' % (d, d2), 'operator== disagrees with component-wise equality (storage mode %d: bit0 left owns, bit1 right owns)' % p.mode, kind='eq', d=d, d2=d2, mode=p.mode)
                 okall = False
             elif r != 'unsat':
                 out['undecided'].append('operator== d=%d' % d)
                 okall = False
         if okall:
-            dec.holds('A==B iff same dimension and equal components, dims (%d,%d), %d paths' % (d, d2, len(ps)))
+            dec.holds('A==B iff same dimension and equal components, dims (%d,%d), owning/viewing operands in all 4 combinations, %d paths' % (d, d2, len(ps)))
     out.update(worker_result(solver, exstats, functions=FUNCS))
     out['seconds'] = time.time() - t0
     return out
@@ -296,6 +313,13 @@ def replay(chk, h, c):
             Mi = npmat(v)
             ret, o = h.native('h_m2s', [I(d), Buf('re', Mi.real.flatten()), Buf('im', Mi.imag.flatten()), Buf('o', n=n)])
             worst = max(worst, np.abs(np.array(o['o']) - v).max())
+        elif kind == 'm2s-view':
+            D_, off = c['D'], c['off']
+            Mi = npmat(v)
+            junk = rng.uniform(-1, 1, 2 * D_ * D_)
+            ret, o = h.native('h_m2s_view', [I(d), I(D_), I(off), Buf('junk', junk), Buf('re', Mi.real.flatten()), Buf('im', Mi.imag.flatten()), Buf('o', n=n)])
+            ret2, o2 = h.native('h_m2s', [I(d), Buf('re', Mi.real.flatten()), Buf('im', Mi.imag.flatten()), Buf('o', n=n)])
+            worst = max(worst, np.abs(np.array(o['o']) - np.array(o2['o'])).max(), np.abs(np.array(o['o']) - v).max())
         elif kind == 'components':
             ret, o = h.native('h_components', [I(d), Buf('a', v), Buf('o', n=n)])
             worst = max(worst, np.abs(np.array(o['o']) - v).max() * 1e9)
@@ -310,16 +334,17 @@ def replay(chk, h, c):
                 worst = max(worst, np.abs(npmat(np.array(o['o'])) - ref).max())
         elif kind == 'eq':
             d2 = c['d2']
+            md = I(c.get('mode', 0))
             if d2 != d:
-                ret, o = h.native('h_eq', [I(d), I(d2), Buf('a', v), Buf('b', rng.uniform(-1, 1, d2 * d2))])
+                ret, o = h.native('h_eq', [I(d), I(d2), Buf('a', v), Buf('b', rng.uniform(-1, 1, d2 * d2)), md])
                 worst = max(worst, 1.0 if ret == 10 else 0.0)
             else:
                 for k in range(n):
                     w = v.copy()
                     w[k] += 0.5
-                    ret, o = h.native('h_eq', [I(d), I(d2), Buf('a', v), Buf('b', w)])
+                    ret, o = h.native('h_eq', [I(d), I(d2), Buf('a', v), Buf('b', w), md])
                     worst = max(worst, 1.0 if ret == 10 else 0.0)
-                ret, o = h.native('h_eq', [I(d), I(d2), Buf('a', v), Buf('b', v.copy())])
+                ret, o = h.native('h_eq', [I(d), I(d2), Buf('a', v), Buf('b', v.copy()), md])
                 worst = max(worst, 1.0 if ret != 10 else 0.0)
     return worst > 1e-9, worst
 
@@ -330,7 +355,7 @@ def main(tier):
     dims = [2, 3, 4, 5, 6]
     chk.cov['bounds'] = {'dimensions': dims, 'inputs': 'all d^2 components / all entries of the matrix / the scalar symbolic; unit box for the toleranced identities',
                          'tolerance': '1e-13 on the unit box for identities involving the decimal literals; 0 (exact polynomial identity) for the component-wise operations',
-                         'equality': 'all 25 ordered dimension pairs, every path of the comparison loop'}
+                         'equality': 'all 25 ordered dimension pairs, owning/viewing operands in all 4 combinations, every path of the comparison loop', 'matrix views': 'd x d block of a D x D matrix, D-d in 1..3, surrounding entries symbolic'}
     chk.cov['domains'] = ['R (exact reals) for the linear-algebra identities', 'F (Float64) for the exact-Hermitian clause', 'syntactic copy for the bit-exact component round trip']
     chk.cov['stubs'] = ['GSL accessors: harness/gsl_shim.c', 'operator new[]: fresh block (aligned policy)', 'std::runtime_error construction: message recorded only']
     chk.assumptions = ['finite, non-NaN inputs; overflow/underflow (huge/tiny magnitudes) only in the sense of exact-real homogeneity',
